@@ -20,10 +20,12 @@ Definition wrapped_in (c m : string) : bool :=
 Definition gen_wrapped (m : string) : bool := forallb (fun c => wrapped_in c m) shipped_classes.
 
 Definition gen_react : option (list string) := react_of dispatcher.
-Definition gen_cstor : list string := ctx_of workers "stor_worker".
-Definition gen_cretr : list string := ctx_of workers "retr_worker".
-Definition gen_clist : list string := ctx_of workers "list_worker".
-Definition gen_cmlsd : list string := ctx_of workers "mlsd_worker".
+(* the items of each worker's async-with scope, normalised by gen_faultsites (what each variable is bound to) *)
+Definition ctx_for (n : string) : list string := match assoc_s n worker_ctx with Some l => l | None => [] end.
+Definition gen_cstor : list string := ctx_for "stor_worker".
+Definition gen_cretr : list string := ctx_for "retr_worker".
+Definition gen_clist : list string := ctx_for "list_worker".
+Definition gen_cmlsd : list string := ctx_for "mlsd_worker".
 
 (* ---- closed checks *)
 (* every backend operation of the three shipped classes carries universal_exception outermost *)
@@ -73,10 +75,11 @@ Definition sites_ok : bool :=
   && sl (wsites "list_worker") ["list"; "exists"; "@build_list_string"]
   && sl (wsites "mlsd_worker") ["list"; "@build_mlsx_string"]
   && sl (wsites "retr_worker") ["open"] && sl (wsites "stor_worker") ["open"]
-  && list_eqb (fun a b => String.eqb (fst a) (fst b) && sl (snd a) (snd b)) (wfile "stor_worker") [("file_out", ["seek"; "write"])]
-  && list_eqb (fun a b => String.eqb (fst a) (fst b) && sl (snd a) (snd b)) (wfile "retr_worker") [("file_in", ["seek"; "iter_by_block"])]
-  && list_eqb (fun a b => String.eqb (fst a) (fst b) && sl (snd a) (snd b)) (wfile "list_worker") []
-  && list_eqb (fun a b => String.eqb (fst a) (fst b) && sl (snd a) (snd b)) (wfile "mlsd_worker") []
+  (* calls on the file context inside its scope (the variable's name does not matter) *)
+  && list_eqb sl (map snd (wfile "stor_worker")) [["seek"; "write"]]
+  && list_eqb sl (map snd (wfile "retr_worker")) [["seek"; "iter_by_block"]]
+  && list_eqb sl (map snd (wfile "list_worker")) []
+  && list_eqb sl (map snd (wfile "mlsd_worker")) []
   (* every handler that reaches the backend is one of the above: nobody else has a call site *)
   && forallb (fun h => mem_s (h_name h) ["mkd"; "rmd"; "dele"; "rnto"; "mlst"; "stor"]
                        || match h_backend h with [] => true | _ => false end) handlers
